@@ -574,6 +574,7 @@ impl CanonicalizeContext {
 			mathml = root.children()[0].element().unwrap();
 		}
 		CanonicalizeContext::assure_mathml(mathml)?;
+		CanonicalizeContext::remove_internal_state_attrs(mathml);
 		let mathml = self.clean_mathml(mathml).unwrap();	// 'math' is never removed
 		self.assure_nary_tag_has_one_child(mathml);
 		// debug!("Not chemistry -- retry:\n{}", mml_to_string(&mathml));
@@ -589,6 +590,24 @@ impl CanonicalizeContext {
 		return Ok(converted_mathml);
 	}
 		
+	/// The attributes MathCAT uses to remember intermediate results (what was split/merged/guessed to be chemistry, cached values) are computed
+	///  during canonicalization and later trusted. They can arrive with the input (MathML returned by MathCAT, edited, and sent back):
+	///  remove them so that all of them describe what was done to *this* input.
+	fn remove_internal_state_attrs(mathml: Element) {
+		static INTERNAL_STATE_ATTRS: [&str; 12] = [
+			"data-split", "data-merged", "data-maybe-chemistry", "data-chem-formula", "data-chem-equation", "data-chem-formula-op",
+			"data-chem-equation-op", "data-chem-element", "data-chem-state", "data-chemical-bond", "data-roman-numeral", "data-nemeth-frac-level",
+		];
+		for attr_name in INTERNAL_STATE_ATTRS {
+			mathml.remove_attribute(attr_name);
+		}
+		for child in mathml.children() {
+			if let ChildOfElement::Element(child) = child {
+				CanonicalizeContext::remove_internal_state_attrs(child);
+			}
+		}
+	}
+
 	/// Make sure there is exactly one child
 	fn assure_nary_tag_has_one_child(&self, mathml: Element) {
 		let children = mathml.children();
